@@ -114,6 +114,6 @@ KeyForBoundEntity ==
 \* nothing is asked of the engine for a rejected request
 RejectedAsksNothing == pc = "rejected" => asked = NoTerm
 
-\* vacuity guards (checked as "must be violated" by nobody; they document reachability):
-\* every RPC can be served and can be rejected — see the coverage run in design_notes/C40.md
+\* reachability of every action (Recv, Check, Serve, Finish) was confirmed with -coverage 1; the check
+\* additionally requires every RPC to have served at least one request on the implementation side.
 =============================================================================
